@@ -33,7 +33,7 @@ import (
 
 var log = logging.MustGetLogger("listeners/agent")
 
-//  Register the listener
+// Register the listener
 var (
 	_ = listener.Register("agent", New)
 )
@@ -182,8 +182,12 @@ func (al *agentListener) serv(c *conn2) {
 			ac := &agentConnection{
 				Laddr: v.Laddr,
 				Raddr: v.Raddr,
-				in:    make(chan []byte),
-				out:   out,
+				// one pending wake-up: receive() signals without blocking, and a
+				// signal sent between the reader's check of the buffer and its
+				// wait must not be lost (the bytes would sit there until the
+				// next message or the end of the connection)
+				in:  make(chan []byte, 1),
+				out: out,
 			}
 
 			conns.Add(ac)
